@@ -265,6 +265,11 @@ def passwords_for(name, quick, seed):
     for L in Ls:
         for label, val in HS.password_contents(L, seed):
             out.append((L, label, val))
+    if quick and 4096 not in Ls and name not in HS.SLOW and name not in ("bigcrypt", "crypt16", "bsdi_crypt", "ldap_bsdi_crypt", "cisco_pix", "cisco_asa", "lmhash"):
+        # the library-wide maximum is an admissible length: one text and one bytes password exactly there
+        conts = HS.password_contents(4096, seed)
+        out.append((4096, conts[0][0], conts[0][1]))
+        out.append((4096, conts[2][0], conts[2][1]))
     return out
 
 
